@@ -73,6 +73,8 @@ theorem drawInt_ok {α : Type} (lo hi : Int) (s s' : List (Draw α)) (v : Nat) (
     | cons d rest =>
       cases d with
       | unit u => simp [get, getThe, MonadStateOf.get, StateT.get, StateT.run, bind, StateT.bind, Except.bind, throw, throwThe, MonadExceptOf.throw, StateT.lift, pure, Except.pure] at h
+      | perm p => simp [get, getThe, MonadStateOf.get, StateT.get, StateT.run, bind, StateT.bind, Except.bind, throw, throwThe, MonadExceptOf.throw, StateT.lift, pure, Except.pure] at h
+      | pick p => simp [get, getThe, MonadStateOf.get, StateT.get, StateT.run, bind, StateT.bind, Except.bind, throw, throwThe, MonadExceptOf.throw, StateT.lift, pure, Except.pure] at h
       | int m =>
         simp only [get, getThe, MonadStateOf.get, StateT.get, StateT.run, bind, StateT.bind, Except.bind, pure, Except.pure] at h
         by_cases hb : (decide ((m : Int) < lo) || decide (hi < (m : Int))) = true
@@ -97,3 +99,8 @@ theorem StateT_pure_ok {σ ε β : Type} (a b : β) (s s' : σ) (h : (pure a : S
     a = b ∧ s = s' := by
   simp [pure, StateT.pure, Except.pure, StateT.run] at h
   exact h
+
+theorem forall₂_right {β γ : Type} (Q : γ → Prop) (l : List β) (r : List γ) (h : List.Forall₂ (fun _ y => Q y) l r) : ∀ y ∈ r, Q y := by
+  induction h with
+  | nil => simp
+  | cons hab _ ih => intro y hy; rcases List.mem_cons.mp hy with rfl | hy; exact hab; exact ih y hy
